@@ -34,15 +34,13 @@ ASSUMPTIONS = ["coefficients are ints / Fractions / dyadic floats (BILP: numpy i
                "ground-state sentences for SetCover, JobSequencing and GraphPartitioning are checked by this enumeration "
                "(a test), not proved"]
 
-# BILP.is_solution_valid uses np.allclose (rtol 1e-5): on integer data with |b_j| >= 1e5 it accepts infeasible x.
-TOLERANCE_AS_FINDING = True
+# Two defects this check demonstrated are repaired upstream and stay here as permanent regressions (signatures kept):
+#  * 9a5d806  Problem.solve_bruteforce dropped the variables whose coefficients vanish from the matrix (DESIGN.md §10 D7);
+#             the model (`solveVia … fill = true`) enumerates all num_binary_variables labels like the repaired code.
+#  * 131e8ef  BILP.is_solution_valid compared integer data with np.allclose (rtol 1e-5) and accepted infeasible x for
+#             |b_j| >= 1e5; integer dtypes are now compared exactly (model: `BILP.validConv … exact = true`).
 D7 = "C10:D7-solve-bruteforce-drops-absent-variables"
-# Which variant of the code the model mirrors.  The faithful model follows the code as it is (False); when the
-# repairs proposed in the C10 report are committed to /repo set these to True (or export VERIF_C10_D7_FIXED=1 /
-# VERIF_C10_TOL_FIXED=1): the model then enumerates all num_binary_variables labels in Problem.solve_bruteforce
-# (`Q.setdefault((i,), 0)` on a plain dict) and compares integer BILP data exactly in is_solution_valid.
-D7_FIXED = os.environ.get("VERIF_C10_D7_FIXED", "1") == "1"    # repaired upstream (9a5d806)
-TOLERANCE_FIXED = os.environ.get("VERIF_C10_TOL_FIXED", "1") == "1"    # repaired upstream (131e8ef)
+TOL = "C10:BILP-allclose-accepts-infeasible"
 
 # ------------------------------------------------------------------ numbers
 
@@ -251,6 +249,52 @@ def gen_js(rng, big=False):
     return dict(cls="JS", lengths=lengths, **{"as": rng.choice(["list", "tuple", "dict"])}, m=m, log=log, M=M,
                 style=rng.choice(Labels.STYLES), num="frac", A=A, B=B, wmode=wm)
 
+def gen_sc_star(rng, big=False):
+    """'star' systems: one element lies in every set, each set also has a private element, so every cover takes all k
+    sets and covers the centre k times (k = M in {3, 5, 6, 7}: not a power of two); optional redundant extra sets,
+    weights, user M, both log_trick values"""
+    k = rng.choice([3, 3, 5, 6, 7] if big else [3, 3, 3, 5])
+    U = list(range(k + 1))
+    V = [[0, i + 1] for i in range(k)]
+    r = rng.random()
+    if r < 0.25:
+        V.append([rng.randint(1, k)])                    # redundant singleton: optimal covers unchanged
+    elif r < 0.4:
+        V[rng.randrange(k)] = sorted(set(V[0]) | {rng.randint(1, k)})
+    rng.shuffle(V)
+    N = len(V)
+    w = None
+    if rng.random() < 0.5:
+        w = [rng.choice(["1", "1/2", "1/4", "3/4"]) for _ in range(N)]
+        w[rng.randrange(N)] = "1"
+    cnt = max(sum(1 for v in V if a in v) for a in U)
+    M = None if rng.random() < 0.8 else cnt + rng.randint(0, 1)
+    wm = weights_mode(rng)
+    A, B = ab_weights(rng, wm, lambda B: B)
+    return dict(cls="SC", U=U, V=V, weights=w, log=rng.random() < 0.75, M=M, style=rng.choice(Labels.STYLES),
+                num="frac", A=A, B=B, wmode=wm)
+
+def gen_js_wide(rng, big=False):
+    """JobSequencing with 1, 3 or 4 workers (several slack registers, or none)"""
+    while True:
+        m = rng.choice([1, 3, 3, 4])
+        N = rng.randint(1, 3 if m < 4 else 2)
+        lengths = [rng.randint(1, 3) for _ in range(N)]
+        log = rng.random() < 0.5
+        M = None
+        if rng.random() < 0.15:
+            M = sum(lengths) + rng.randint(0, 1)
+        Me = M or N * max(lengths)
+        bits_ = (int(math.log2(Me)) + 1) if log else Me
+        if m * N <= 10 and m * N + (bits_ if m > 1 else 0) <= 16:
+            break
+    wm = weights_mode(rng)
+    A, B = ab_weights(rng, wm, lambda B: B * max(lengths))
+    return dict(cls="JS", lengths=lengths, **{"as": rng.choice(["list", "tuple", "dict"])}, m=m, log=log, M=M,
+                style=rng.choice(Labels.STYLES), num="frac", A=A, B=B, wmode=wm)
+
+TARGETED = dict(SC=gen_sc_star, JS=gen_js_wide)
+
 GEN = dict(NP=gen_np, ASC=gen_asc, VC=gen_vc, BILP=gen_bilp, GP=gen_gp, SC=gen_sc, JS=gen_js)
 
 FIXED = [
@@ -270,6 +314,18 @@ FIXED = [
          wmode="default"),
     dict(cls="JS", lengths=[2, 1, 2], **{"as": "dict"}, m=2, log=False, M=None, style="tuple", num="int", A="7/2",
          B="1", wmode="above"),
+    dict(cls="SC", U=[0, 1, 2, 3], V=[[0, 1], [0, 2], [0, 3]], weights=None, log=True, M=None, style="int", num="int",
+         A=None, B=None, wmode="default"),
+    dict(cls="SC", U=[0, 1, 2, 3], V=[[0, 1], [0, 2], [0, 3]], weights=["1", "1/2", "1/4"], log=True, M=None,
+         style="str", num="frac", A="3/2", B="1", wmode="above"),
+    dict(cls="SC", U=[0, 1, 2, 3, 4, 5], V=[[0, 1], [0, 2], [0, 3], [0, 4], [0, 5]], weights=None, log=True, M=None,
+         style="int", num="int", A="2", B="1", wmode="above"),
+    dict(cls="JS", lengths=[2, 1], **{"as": "list"}, m=3, log=True, M=None, style="int", num="int", A=None, B=None,
+         wmode="default"),
+    dict(cls="JS", lengths=[1, 2], **{"as": "list"}, m=4, log=False, M=None, style="int", num="int", A="5/2", B="1",
+         wmode="above"),
+    dict(cls="JS", lengths=[3, 1, 2], **{"as": "tuple"}, m=1, log=True, M=None, style="int", num="int", A=None, B=None,
+         wmode="default"),
     dict(cls="GP", edges=[[0, 1, "1"], [1, 2, "1"], [2, 3, "1"], [3, 0, "1"], [4, 4, "1"], [5, 5, "1"]],
          **{"as": "set"}, style="mixed", num="int", A="9/8", B="1", wmode="above"),
 ]
@@ -433,15 +489,14 @@ def model_line(case, prob, L, sols, do_brute):
         else:
             try:
                 Qd = dict(prob.to_qubo(**kwargs_of(case)))
-                if D7_FIXED:
-                    for i in range(int(prob.num_binary_variables)):
-                        Qd.setdefault((i,), 0)
+                for i in range(int(prob.num_binary_variables)):
+                    Qd.setdefault((i,), 0)
                 order = set_order_of_matrix(Qd)
             except Exception:
                 order = []
     line["order"] = order
-    line["fill"] = D7_FIXED
-    line["exact_int"] = TOLERANCE_FIXED and case.get("num") == "int"
+    line["fill"] = True
+    line["exact_int"] = case.get("num") == "int"
     if t == "NP":
         line["S"] = [fs(v) for v in prob._S]
     elif t == "ASC":
@@ -508,6 +563,45 @@ def energies(Q, n, spin):
         E += col
     return E, den
 
+def energies_on(terms, labs, spin):
+    """exact (integer) energies of the given terms on all assignments of the labels `labs` (first label = most
+    significant bit)"""
+    pos = {l: i for i, l in enumerate(labs)}
+    X = bits(len(labs))
+    Z = 1 - 2 * X if spin else X
+    E = np.zeros(X.shape[0], dtype=np.int64)
+    for k, v in terms:
+        col = np.full(X.shape[0], v, dtype=np.int64)
+        for i in k:
+            col = col * Z[:, pos[i]]
+        E += col
+    return E
+
+def separable_min(Q, ndec, groups, spin):
+    """min over the slack registers, for every assignment of the decision labels 0..ndec-1, of a matrix in which no
+    term couples two different registers (SetCover: one register per element; JobSequencing: one per worker >= 1):
+    F(x) = base(x) + sum_g min_y E_g(x, y).  Returns (F as int64 array over the 2^ndec assignments, denominator),
+    or None when the matrix is not of that shape."""
+    terms, den = int_terms(Q)
+    gof = {l: gi for gi, g in enumerate(groups) for l in g}
+    base, per = [], [[] for _ in groups]
+    for k, v in terms:
+        try:
+            gs = {gof[i] for i in k if i >= ndec}
+        except KeyError:
+            return None
+        if len(gs) > 1:
+            return None
+        (per[gs.pop()] if gs else base).append((k, v))
+    dec = list(range(ndec))
+    F = energies_on(base, dec, spin)
+    for g, tg in zip(groups, per):
+        if ndec + len(g) > 17:
+            return None
+        E = energies_on(tg, dec + list(g), spin).reshape(1 << ndec, 1 << len(g))
+        F = F + E.min(axis=1)
+    return F, den
+
 class Spec:
     """independent reading of one instance: decision variables, decoder, feasibility, cost"""
     def __init__(self, case, prob, L):
@@ -545,6 +639,21 @@ class Spec:
         elif t == "JS":
             self.len = list(case["lengths"]); self.m = case["m"]
             self.ndec = self.m * len(self.len)
+
+    def groups(self, n):
+        """the slack registers by the documented label layout (SetCover: `_x`, JobSequencing: `_y`)"""
+        t = self.case["cls"]
+        if t == "SC":
+            N, ne = len(self.V), len(self.U)
+            nb = (n - N) // ne if ne else 0
+            return [[N + a + ne * mm for mm in range(nb)] for a in range(ne)]
+        if t == "JS":
+            N, m = len(self.len), self.m
+            if m <= 1:
+                return []
+            nb = (n - m * N) // (m - 1)
+            return [[N * m + i * (m - 1) + w - 1 for i in range(nb)] for w in range(1, m)]
+        return []
 
     def decode(self, x):
         """x: tuple of booleans of the first ndec labels -> canonical decoded solution"""
@@ -717,7 +826,8 @@ def oracle(ctx, case, prob, L, sols, impl):
                 bad.append(("C10:%s:valid" % t, "is_solution_valid(%r)=%r, on its conversion %r; feasibility is %r" % (full, v2, v1, want)))
                 break
     # ---- optimum by enumeration of the decision variables
-    if bad or n > 16 or sp.ndec > 14:
+    wide = n > 16       # SetCover / JobSequencing only: the slack registers are minimised one by one
+    if bad or sp.ndec > 14 or (wide and t not in ("SC", "JS")):
         return bad
     feas = [x for x in itertools.product((0, 1), repeat=sp.ndec) if sp.candidate(x)]
     has_cost = t != "ASC"
@@ -726,8 +836,38 @@ def oracle(ctx, case, prob, L, sols, impl):
     default = default_weights_claimed(case) and (t != "GP" or sp.simple_unit())
     if feas and (above or default):
         for name, M, spin in (("to_qubo", Q, False), ("to_quso", Ls, True)):
+            if wide:
+                r = separable_min(M, sp.ndec, sp.groups(n), spin)
+                if r is None:
+                    ctx.count("oracle:not-separable:%s" % t); continue
+                Fx, den = r
+                fmin = int(Fx.min())
+                ground = Fraction(fmin, den)
+                if ground != opt:
+                    bad.append(("C10:%s:ground-%s" % (t, "above" if above else "default"),
+                                "%s(%s): ground energy %s != optimal cost %s" % (name, kw, ground, opt)))
+                    continue
+                ok_any = False
+                for g in np.nonzero(Fx == fmin)[0]:
+                    x = tuple(int(b) for b in bits(sp.ndec)[g])
+                    good = sp.candidate(x) and sp.cost(x) == opt
+                    ok_any = ok_any or good
+                    if above and not good:
+                        bad.append(("C10:%s:ground-above" % t, "%s(%s): a ground state with decision variables %r decodes to %r which is %s" % (
+                            name, kw, x, sp.decode(x), "infeasible" if not sp.feasible(x) else "not optimal")))
+                        break
+                if not above and not ok_any:
+                    bad.append(("C10:%s:ground-default" % t, "%s(): no ground state decodes to a feasible optimal solution" % name))
+                ctx.count("oracle:ground-separable:%s:%s" % (t, "above" if above else "default"))
+                continue
             E, den = energies(M, n, spin)
             emin = int(E.min())
+            if t in ("SC", "JS"):       # self-check of the register-wise minimisation used beyond 16 labels
+                r = separable_min(M, sp.ndec, sp.groups(n), spin)
+                if r is not None:
+                    if Fraction(int(r[0].min()), r[1]) != Fraction(emin, den):
+                        raise common.Infra("oracle self-check: register-wise minimum differs from full enumeration on %s" % json.dumps(case))
+                    ctx.count("oracle:separable-selfcheck")
             gs = np.nonzero(E == emin)[0]
             ground = Fraction(emin, den)
             if t == "ASC":
@@ -845,12 +985,16 @@ def process(ctx, cases, dense=False):
             prepared.append((c, None, None, [], False, dict(init_err=exc_name(e))))
             continue
         n = int(prob.num_binary_variables)
-        if n > 16:
+        if n > (64 if c["cls"] in ("SC", "JS") else 16):
             ctx.count("skipped:too-big"); continue
         import random
         srng = random.Random(json.dumps(c, sort_keys=True))
         sols = gen_sols(c, n, srng, ctx.tier)
         do_brute = n <= (12 if ctx.tier == "thorough" or dense else 10)
+        if c["cls"] == "SC":        # the class's own solver enumerates the N set variables only
+            do_brute = len(c["V"]) <= 10
+        if c["cls"] == "JS":
+            do_brute = c["m"] * len(c["lengths"]) <= 10
         prepared.append((c, prob, L, sols, do_brute, None))
     lines = []
     for c, prob, L, sols, do_brute, ie in prepared:
@@ -929,16 +1073,15 @@ def gen_all(ctx):
     for t in ("NP", "ASC", "VC", "BILP", "GP", "SC", "JS"):
         cases += [GEN[t](rng) for _ in range(per)]
         cases += [GEN[t](rng, big=True) for _ in range(max(4, per // 12))]
+        if t in TARGETED:
+            cases += [TARGETED[t](rng, big=(i % 3 == 0)) for i in range(max(12, per // 5))]
     cases += [malformed(rng) for _ in range(ctx.scale(30, 200))]
     return cases
 
 def check(ctx):
     warnings.simplefilter("ignore")
     for c, why in tolerance_cases(ctx):
-        if TOLERANCE_AS_FINDING:
-            ctx.violation("C10:BILP-allclose-accepts-infeasible", c, why)
-        else:
-            ctx.notes.append("tolerance: " + why)
+        ctx.violation(TOL, c, why)
     process(ctx, gen_all(ctx))
     if ctx.diffs and not ctx.violations:
         search(ctx)
@@ -964,6 +1107,8 @@ def search(ctx):
                 extra.append(dict(v, pbc=not c["pbc"]))
     for t in GEN:
         extra += [GEN[t](ctx.rng) for _ in range(150)]
+    for t in TARGETED:
+        extra += [TARGETED[t](ctx.rng, big=(i % 2 == 0)) for i in range(120)]
     process(ctx, extra, dense=True)
 
 def replay(ctx, payload):
@@ -974,6 +1119,6 @@ def replay(ctx, payload):
         return check(ctx)
     if c.get("cls") == "tolerance":
         for cc, why in tolerance_cases(ctx):
-            ctx.violation("C10:BILP-allclose-accepts-infeasible", cc, why)
+            ctx.violation(TOL, cc, why)
         return
     process(ctx, [c], dense=True)
